@@ -106,3 +106,22 @@ def random_search(ctx, spec, strategy, evaluate, account, max_rounds=4):
             break
         ctx.suppressed.update(state["found"])
         budget -= ctx.evaluations - state["before"]
+
+
+def sweep_deep(ctx, prog, name, evaluate, account, windows=(10, 10), pick=0, extra=None):
+    """Three pre-emptions on a SMALL program: the first anywhere, each further one within a short window
+    of the previous (for races that need 'B starts, A overtakes, B publishes first')."""
+    base = {"prog": prog, "tape": [], "clock": "exact"}
+    if extra:
+        base.update(extra)
+    viols, info = evaluate(base)
+    n = info["steps"]
+    count = 0
+    for i in range(n + 1):
+        for j in range(windows[0]):
+            for k in range(windows[1]):
+                case = dict(base, tape=[[i, pick], [j, pick], [k, pick]])
+                viols, info = evaluate(case)
+                account(ctx, case, viols, info, ["sweep3:" + name.split("/")[-1]])
+                count += 1
+    ctx.exhaustive.append({"domain": "triple pre-emption (windows %s) of %s" % (list(windows), name), "points": n, "size": count, "complete": True})
